@@ -182,7 +182,12 @@ pub fn regexp_constructor(
             compiled: Some(compiled),
         };
         obj.prototype = Some(interp.regexp_prototype.clone());
-        obj.set_property(source_key, JsValue::String(JsString::from(pattern)));
+        let source_text = if pattern.is_empty() {
+            "(?:)".to_string()
+        } else {
+            pattern
+        };
+        obj.set_property(source_key, JsValue::String(JsString::from(source_text)));
         obj.set_property(flags_key, JsValue::String(JsString::from(flags.clone())));
         obj.set_property(global_key, JsValue::Boolean(flags.contains('g')));
         obj.set_property(ignore_case_key, JsValue::Boolean(flags.contains('i')));
@@ -249,16 +254,16 @@ pub fn regexp_test(
         return Err(JsError::type_error("this is not a RegExp"));
     };
 
-    let re = get_compiled_regexp(interp, obj)?;
+    if !matches!(obj.borrow().exotic, ExoticObject::RegExp { .. }) {
+        return Err(JsError::type_error("this is not a RegExp"));
+    }
 
-    // Use ToString abstract operation (calls object's toString if needed)
-    let input_arg = args.first().cloned().unwrap_or(JsValue::Undefined);
-    let input = interp.coerce_to_string(&input_arg)?.to_string();
-
-    let is_match = re
-        .is_match(&input)
-        .map_err(|e| JsError::syntax_error(e, 0, 0))?;
-    Ok(Guarded::unguarded(JsValue::Boolean(is_match)))
+    // test is exec(...) !== null: it honours and advances lastIndex of a global/sticky regex
+    let Guarded { value, guard: _g } = regexp_exec(interp, this.clone(), args)?;
+    Ok(Guarded::unguarded(JsValue::Boolean(!matches!(
+        value,
+        JsValue::Null
+    ))))
 }
 
 pub fn regexp_exec(
@@ -299,19 +304,31 @@ pub fn regexp_exec(
         0
     };
 
+    // lastIndex and match.index count characters; the matcher works on byte offsets
+    let byte_of_char = |chars: usize| -> Option<usize> {
+        input
+            .char_indices()
+            .map(|(b, _)| b)
+            .chain(core::iter::once(input.len()))
+            .nth(chars)
+    };
+    let char_of_byte = |byte: usize| -> usize { input.get(..byte).map(|p| p.chars().count()).unwrap_or(0) };
+
     // Check if lastIndex is past end of string
-    if last_index > input.len() {
+    let Some(start_byte) = byte_of_char(last_index) else {
         if is_global || is_sticky {
             obj.borrow_mut()
                 .set_property(last_index_key, JsValue::Number(0.0));
         }
         return Ok(Guarded::unguarded(JsValue::Null));
-    }
+    };
 
     // Use the provider's find method which handles start position
     let match_result = re
-        .find(&input, last_index)
-        .map_err(|e| JsError::syntax_error(e, 0, 0))?;
+        .find(&input, start_byte)
+        .map_err(|e| JsError::syntax_error(e, 0, 0))?
+        // a sticky regex matches at lastIndex or not at all
+        .filter(|m| !is_sticky || m.start == start_byte);
 
     match match_result {
         Some(regex_match) => {
@@ -332,14 +349,14 @@ pub fn regexp_exec(
 
             // Set index property (match start position)
             arr.borrow_mut()
-                .set_property(index_key, JsValue::Number(regex_match.start as f64));
+                .set_property(index_key, JsValue::Number(char_of_byte(regex_match.start) as f64));
             arr.borrow_mut()
                 .set_property(input_key, JsValue::String(JsString::from(input.clone())));
 
             // Update lastIndex for global/sticky regexes
             if is_global || is_sticky {
                 obj.borrow_mut()
-                    .set_property(last_index_key, JsValue::Number(regex_match.end as f64));
+                    .set_property(last_index_key, JsValue::Number(char_of_byte(regex_match.end) as f64));
             }
 
             Ok(Guarded::with_guard(JsValue::Object(arr), guard))
